@@ -72,6 +72,10 @@ def _dump(payload, sub):
         for ti, name in sorted(cols):
             links.append(set_type(name, type='integer', resources=ti, on_error=schema_validator.ignore))
         opts['validator_options'] = {'on_error': schema_validator.drop}
+    if payload.get('title') and not payload.get('redump_from'):
+        # multi-byte text in the descriptor itself (bytes != characters)
+        from dataflows import update_package
+        links.append(update_package(title=payload['title']))
     target = payload['target']
     out = os.path.abspath(payload['out'])
     if target == 'path':
@@ -123,7 +127,7 @@ class C09(Prop):
     ASSUMPTIONS = ['number of data rows of a csv file = records parsed by the stdlib csv module minus the header; of a json file = length of the top-level array',
                    'package totals are compared with the sums over the resources recorded in the same written descriptor']
     REAL_VS_STUB = {'real': ['dataflows dumpers, csv/json writers, zipfile, the file system'], 'stub': ['ambient environment (TZ, umask, cwd, tempdir) set per dump']}
-    PROBES = ['zip-target', 'json-format', 'counters-renamed', 'counters-dotted', 'counter-disabled', 'filehash-in-path', 'empty-resource', 'multibyte-text', 'compact-descriptor', 'dumper-drops-invalid-rows', 're-dump-of-a-loaded-package']
+    PROBES = ['zip-target', 'json-format', 'counters-renamed', 'counters-dotted', 'counter-disabled', 'filehash-in-path', 'empty-resource', 'multibyte-text', 'multibyte-text-in-descriptor', 'compact-descriptor', 'dumper-drops-invalid-rows', 're-dump-of-a-loaded-package']
     TIERS = {'quick': dict(runs=700, wall=100, run_wall=300),
              'thorough': dict(runs=20000, wall=1700, run_wall=600)}
     SHRINK_FROZEN = ('fields',)
@@ -163,6 +167,7 @@ class C09(Prop):
                     for _ in range(rng.randrange(1, 3)):
                         corrupt.append([ti, rng.randrange(len(t['rows'])), rng.choice(ints)])
         return {'tables': tabs, 'empty': empty, 'opts': opts, 'corrupt': corrupt, 'redump': rng.random() < 0.3 and opts['format'] == 'csv', 'target': rng.choice(['path', 'path', 'zip']),
+                'title': rng.choice([None, None, 'plain', 'Données – 数据 \U0001F600']),
                 'env2': {'tz': rng.choice(['UTC', 'America/New_York', 'Asia/Kolkata', 'Pacific/Chatham']), 'umask': rng.choice([0o022, 0o077, 0o002]), 'cwd': 'elsewhere', 'tmp': 'othertmp'}}
 
     def execute(self, sc, ctx):
@@ -194,6 +199,8 @@ class C09(Prop):
             ctx.probe('dumper-drops-invalid-rows')
         if any(isinstance(c, str) and any(ord(ch) > 127 for ch in c) for t in sc['tables'] for row in t['rows'] for c in row):
             ctx.probe('multibyte-text')
+        if sc.get('title') and any(ord(ch) > 127 for ch in sc['title']):
+            ctx.probe('multibyte-text-in-descriptor')
         desc_s = 'target=%s opts=%s sizes=%r empty=%r' % (target, json.dumps(opts), [len(t['rows']) for t in sc['tables']], sc.get('empty'))
         results = []
         pending = []
@@ -202,7 +209,7 @@ class C09(Prop):
             os.makedirs(d)
             os.chdir(d)
             out = os.path.join(d, 'out' if target == 'path' else 'out.zip')
-            r = ctx.subrun(_dump, {'tables': sc['tables'], 'empty': sc.get('empty'), 'opts': opts, 'target': target, 'out': out, 'env': env, 'corrupt': sc.get('corrupt')})
+            r = ctx.subrun(_dump, {'tables': sc['tables'], 'empty': sc.get('empty'), 'opts': opts, 'target': target, 'out': out, 'env': env, 'corrupt': sc.get('corrupt'), 'title': sc.get('title')})
             if r['status'] != 'ok':
                 if n == 0:
                     ctx.discard('dump raises: %s' % json.dumps(r.get('exc'))[:300])
